@@ -117,6 +117,15 @@ CHECKS = {
     design_ref="DESIGN.md sections 6 (C14) and 7.1", note=_MEM_NOTE,
     technique="Coq proof: every result theorem has the form '= Ok ...' over a model with explicit panics; checked-arithmetic obligation on the prefilter state + debug/overflow-check build under catch_unwind",
  ),
+ "C16": dict(
+    text="C16_reuse_partial / C16_reuse_rev_partial: for a finder built from x, EVERY later search over ANY list of haystacks, from ANY prefilter "
+         "state, returns find_spec x h (rfind_spec): the answer depends on the needle and that haystack only; C16_needle: needle() is the "
+         "construction needle; C16_iter_resume: an iterator continued from any of its states (what clone/into_owned copy) produces exactly the "
+         "remaining outputs. The theorems are about immutable model values; the copying behaviour of clone/as_ref/into_owned (incl. after the "
+         "original needle buffer is overwritten) is decided by running the same operation histories on the real crate.",
+    design_ref="DESIGN.md section 6 (C16)", note=_MEM_NOTE + " Tier 1 as C03/C04. Clone derives, CowBytes and lifetimes are not modelled.",
+    technique="Coq proof: results of reuse are the specification of needle and haystack for every prefilter state; iterator run-splitting + differential correspondence on operation histories with buffer scribbling",
+ ),
  "C18": dict(
     text="Theorems C18_is_equal / C18_is_prefix / C18_is_suffix / C18_is_equal_raw (coq/Props/C18.v) prove for all byte "
          "lists, lengths and placements that the modelled routines return exactly slice equality / starts_with / ends_with, "
